@@ -30,10 +30,18 @@ WHICH = {'C04': ('traj', 'dwf_rowsb', 'C04disc'), 'C05': ('init', 'dinit_okb', '
 PROVED = {'DSIR': True, 'BSIR': True, 'SIS': True, 'PSIR': True}
 
 
-def in_domain(case):
+def in_domain(case, rho_ok=False):
     """the domain of the theorems and of the property's discrete-time clause: initial_infecteds given
-    (duplicate-free: sampled without replacement), no rho, a horizon of a whole number of steps"""
-    if case['i0'] is None or case['rho'] is not None: return False
+    (duplicate-free: sampled without replacement), no rho, a horizon of a whole number of steps.
+    rho_ok (C04 only: the row checker does not need the initial sets): also the rho path -- by
+    C05_discrete_SIR_rho_selects_round_N_rho_distinct_nodes a rho run is a run from an explicit duplicate-free set --
+    without initial_recovereds (with them the sample may overlap: the finding of probe_rho_r0)"""
+    if case['i0'] is None:
+        if not (rho_ok and not case.get('r0')): return False
+        n = len(case['gc'].order)
+        k = 1 if case['rho'] is None else int(round(n * float(case['rho'])))
+        if not 0 <= k <= n: return False
+    elif case['rho'] is not None: return False
     if case['kind'] == 'SIS' and case['tmax'] is None: return False
     return DL.integer_horizon(case)
 
@@ -68,7 +76,7 @@ def parse(line):
     return d
 
 
-def gen_cases(rng, tier, per_kind=None):
+def gen_cases(rng, tier, per_kind=None, rho_ok=False):
     n = per_kind or (110 if tier == 'quick' else 1500)
     cases = []
     for kind in DL.KINDS:
@@ -76,7 +84,7 @@ def gen_cases(rng, tier, per_kind=None):
         while k < n and tries < 20 * n:
             tries += 1
             c = DL.gen_case(rng, kind, nmax=7)
-            if not in_domain(c): continue
+            if not in_domain(c, rho_ok): continue
             cases.append(c); k += 1
     return cases
 
@@ -87,8 +95,9 @@ def chk_impl(EoN, sim, cases):
     fin = lambda x: x == x and abs(x) != INF
     lines, runs = [], []
     for case in cases:
-        plain = DL.run_impl(EoN, sim, case, [], full=False)
-        full = DL.run_impl(EoN, sim, case, [], full=True)
+        draws = [F(case['gc'].order.index(case['gc'].order[0]) + (len(case['tt']) % max(1, len(case['gc'].order))))] if case['i0'] is None else []
+        plain = DL.run_impl(EoN, sim, case, draws, full=False)
+        full = DL.run_impl(EoN, sim, case, draws, full=True)
         bad = None
         if plain['status'] != 'OK' or full['status'] != 'OK' or isinstance(plain.get('rows'), (str, tuple)) or isinstance(full.get('trans'), str) \
                 or any(isinstance(h, str) for h in full.get('hist', {}).values()):
@@ -174,7 +183,7 @@ def part(run, tier, pid, props, per):
     if not ok:
         run.violation('%s/build/discx' % pid, 'extracted checkers do not build: ' + log[-500:], {'log': log[-3000:]}, no_input=True)
         return
-    cases = gen_cases(run.rng, tier)
+    cases = gen_cases(run.rng, tier, rho_ok=(pid == 'C04'))
     stat = {}
     for case, v, plain, full in chk_impl(EoN, sim, cases):
         entry = DL.ENTRY[case['kind']]
